@@ -397,6 +397,65 @@ fn collect_case<const D: usize>(matrix: bool, shape: &[(usize, usize)], streams:
                     return inconsistent(1650);
                 }
             }
+            // iterator SHAPES (crate::shapes, notes/ITERS.md): the same streams handed over as
+            // lower-bound-0 / custom-hint / not-fused / boxed / by-ref iterators and with small lying
+            // hints must give the same results (1660 + shape from_iter, 1680 + shape from_iters); both
+            // entry points size a Vec from the LOWER bound, so with a lying lower bound of usize::MAX
+            // (shapes 12 / 15) a "capacity overflow" panic is accepted instead (16100 + shape otherwise)
+            {
+                let key = ((len as u64) * 31 + (streams.len() as u64) * 7)
+                    .wrapping_add(streams.iter().flatten().fold(0u64, |h, &t| h.wrapping_mul(3).wrapping_add(t as u64)))
+                    .wrapping_add(shape.iter().fold(0u64, |h, d| h.wrapping_mul(5).wrapping_add(d.1 as u64)));
+                let mut plan = crate::shapes::plan(key, &crate::shapes::LYING_SMALL);
+                if key % 7 == 0 {
+                    plan.extend([12u8, 15]);
+                }
+                for shape_no in plan {
+                    let lax = crate::shapes::lower_is_max(shape_no);
+                    let bad = |base: i64| inconsistent(if lax { 16100 } else { base } + shape_no as i64);
+                    for (k, t) in streams.iter().enumerate() {
+                        let items: Vec<Record<f64>> = (0..len).map(|i| record(t[i], i)).collect();
+                        let one = crate::shapes::with_shape!(shape_no, items, |it| guarded(|| $ty::from_iter($size, it)));
+                        match one {
+                            Some(one) => {
+                                if enc(one) != out[k] {
+                                    return bad(1660);
+                                }
+                            }
+                            None => {
+                                if !lax {
+                                    return bad(1660);
+                                }
+                            }
+                        }
+                    }
+                    macro_rules! shaped_n {
+                        ($n:tt) => {{
+                            let rows: Vec<[Record<f64>; $n]> =
+                                (0..len).map(|i| std::array::from_fn(|k| record(streams[k][i], i))).collect();
+                            crate::shapes::with_shape!(shape_no, rows, |it| guarded(|| $ty::from_iters::<_, $n>($size, it)))
+                                .map(|a| a.into_iter().map(&enc).collect::<Vec<Sx>>())
+                        }};
+                    }
+                    let all = match streams.len() {
+                        1 => shaped_n!(1),
+                        2 => shaped_n!(2),
+                        _ => shaped_n!(3),
+                    };
+                    match all {
+                        Some(v) => {
+                            if v != out {
+                                return bad(1680);
+                            }
+                        }
+                        None => {
+                            if !lax {
+                                return bad(1680);
+                            }
+                        }
+                    }
+                }
+            }
             l(out)
         }};
     }
